@@ -90,8 +90,9 @@ def depth_window(rep, F, cg):
     lens = []
     for bi, bj, st in B.assigns():
         rv = st['rv']
-        if rv['k'] == 'binop' and rv['op'] == 'Lt' and 'min_depth' in str(B.norm_operand(rv['r'])):
-            for o in B.op_origins(rv['l']):
+        if rv['k'] == 'binop' and rv['op'] in ('Lt', 'Le', 'Gt', 'Ge') and ('min_depth' in str(B.norm_operand(rv['r'])) or 'min_depth' in str(B.norm_operand(rv['l']))):
+            other = rv['l'] if 'min_depth' in str(B.norm_operand(rv['r'])) else rv['r']
+            for o in B.op_origins(other):
                 if isinstance(o, tuple) and o[0] == 'call' and (callee_of(B.term(o[1])) or '').endswith('Vec<T, A>>::len'):
                     lens.append(o[1])
     ok = bool(iter_push) and bool(lens) and all(l not in B.reachable_from(p) for p in iter_push for l in lens)
